@@ -38,6 +38,20 @@ def tlc_cases_to_jobs(cases, tier, seed):
     return jobs
 
 
+def directed_cases():
+    """cases the seeded generator hits only by luck: '?' and '??' against names of multi-byte characters (one character is
+    one '?', whatever its encoded length), in every direction, with and without --delete"""
+    out = []
+    names = ["ab", "d/\u30ca\u30e1", "\u00fc", "\u30ca\u30e1", "\u30ca\u30e1\u00e9"]
+    for d in ("local", "push", "pull"):
+        for v, (pats, dl) in enumerate([(["??"], False), (["?"], True), (["d/??"], True), (["???"], False)]):
+            out.append({"id": f"uglob{v}-{d}", "names": names, "secs": [1_700_000_000, 1_600_000_000, 5],
+                        "src": [[1, 1, 0], [2, 1, 0], [3, 1, 0], [1, 1, 0], [2, 1, 0]],
+                        "dst": [[], [3, 2, 0], [], [2, 2, 0], []] if not dl else [[3, 2, 0], [], [1, 2, 0], [], [3, 2, 0]],
+                        "pats": pats, "del": dl, "dry": False, "dir": d, "jobs": 2})
+    return out
+
+
 def induced_failures(seed):
     out = []
     for k, d in enumerate(["local", "pull", "push"]):
@@ -81,6 +95,7 @@ def run(pid, tier, ev=None, vd=None, finish=True, accept=None):
         nrand = 1200 if tier == "quick" else 40000
         jobs += og.random_cases(nrand, vlib.seed())
         jobs += induced_failures(vlib.seed())
+        jobs += directed_cases()
         log(f"[{pid}] OneWay: {r.distinct} states, {len(cases)} TLC cases -> {len(jobs)} real edges to run")
         recs = og.run_cases(copia, SHIMDIR, os.path.join(work, "g"), jobs, vlib.seed())
         recs.sort(key=lambda x: x["id"])
